@@ -6,7 +6,7 @@ from .common import last
 ID = "C12"
 BUDGET = {"quick": 1500, "thorough": 60000}
 RULE = ("indentation strings of 0..8 spaces/tabs; partial bodies built from lines of text, expressions (data with multi-line "
-        "and empty strings), inline and multi-line block helpers and nested standalone partials (≤ 3 levels); called at top "
+        "and empty strings), inline and multi-line block helpers, raw blocks and nested standalone partials (≤ 3 levels); called at top "
         "level and inside each/if/with; prevent_indent on and off; the calling template rendered directly, registered from a string, from a file, and from a file under dev mode; oracle = indent_lines(render of the partial alone, W) "
         "compared modulo whitespace on blank lines (prevent_indent: only the first line keeps W); the partial alone is "
         "rendered by the real crate in the same session; non-trivial = the partial writes ≥ 2 lines; distinct by "
@@ -44,7 +44,15 @@ def body_lines(rng, level, names):
     for _ in range(rng.range(1, 5)):
         k = rng.weighted([("text", 4), ("expr", 5), ("hexpr", 3), ("mixed", 3), ("ifinline", 2), ("ifblock", 2), ("each", 2),
                           ("nested", 3 if level > 0 and names else 0), ("blank", 1), ("comment", 1), ("free", 4),
-                          ("nestedinline", 2 if level > 0 and names else 0)])
+                          ("nestedinline", 2 if level > 0 and names else 0), ("raw", 2), ("userblock", 1)])
+        if k == "raw":
+            # a raw block: its text – one or several lines – is output of the partial like any other
+            lines.append(rng.pick(["{{{{raw}}}}\n{{one}}\ntwo\n{{{{/raw}}}}\n", "{{{{raw}}}}a {{b}} c{{{{/raw}}}}\n", "x{{{{raw}}}}r1\nr2{{{{/raw}}}}y\n",
+                                   "{{{{raw}}}}  lead\n\n{{/if}}\n{{{{/raw}}}}\n"]))
+            continue
+        if k == "userblock":
+            lines.append(rng.pick(["{{#with o}}\n{{{k}}}\n{{/with}}\n", "{{#unless f}}u1\nu2{{/unless}}\n", "{{#each o}}{{@key}}:{{{this}}}\n{{/each}}"]))
+            continue
         if k == "nestedinline":
             # a nested partial that is NOT alone on its line (no indentation of its own is captured; before the repair
             # F13/F16 its first line lost the caller's indentation)
